@@ -33,6 +33,7 @@ func boundParams() {
 	boundD = vrt.ParamOr("D", boundD)
 	forceS = vrt.ParamOr("slen", -1)
 	forceL = vrt.ParamOr("llen", -1)
+	forceM = vrt.ParamOr("mlen", -1)
 }
 
 func codecCore(ops *typeOps) {
@@ -66,7 +67,7 @@ func codecCore(ops *typeOps) {
 	k, err := EncodeObject(buf, nil, pv)
 	vrt.Check(err == nil, "C04 EncodeObject succeeds with len(buf) >= size")
 	vrt.Check(k == n, "C04 EncodeObject returns EncodedSize")
-	vrt.Check(vrt.BytesEq(buf[:n], ref), "C02 bytes equal reference encoding")
+	vrt.Check(sameEncoding(ops.St, buf[:n], ref), "C02 bytes equal reference encoding")
 	vrt.Check(vrt.BytesEq(buf[n:], snap[n:]), "C16 buffer tail beyond n untouched")
 	// again, by value, into a second buffer: same bytes (C16 repeatable)
 	vrt.SetOwner("buf")
@@ -75,7 +76,7 @@ func codecCore(ops *typeOps) {
 	k2, err2 := EncodeObject(buf2, nil, ops.Deref(pv))
 	vrt.Check(err2 == nil && k2 == n, "C04 EncodeObject(value) succeeds")
 	vrt.Observe("enc2", buf2)
-	vrt.Check(vrt.BytesEq(buf2, ref), "C16 re-encoding (by value) yields the same bytes")
+	vrt.Check(sameEncoding(ops.St, buf2, ref), "C16 re-encoding (by value) yields the same bytes")
 
 	// ---- short buffers (C04): lengths 0, n/2, n-1; with cap==len and with spare capacity ----
 	if n > 0 {
@@ -316,7 +317,19 @@ func pick(name string, n int) int {
 }
 
 // forceS / forceL >= 0 fix every string(binary) / list length (threshold shapes: concrete length, symbolic contents).
-var forceS, forceL = -1, -1
+var forceS, forceL, forceM = -1, -1, -1
+
+func mapLen(name string) int {
+	if forceM >= 0 {
+		return forceM + 1
+	}
+	return pick(name+"#", boundM+2)
+}
+
+// idxKey: distinct concrete string keys for large maps.
+func idxKey(i int) string {
+	return string([]byte{'k', byte('0' + i/100%10), byte('0' + i/10%10), byte('0' + i%10)})
+}
 
 func strLen(name string) int {
 	if forceS >= 0 {
@@ -626,4 +639,20 @@ func mutmsgCore(w, t *typeOps) {
 	vrt.Check(alloc <= 4096+256*uint64(len(buf)), "C05 memory requested is proportional to the input length")
 	vrt.Freeze("buf", false)
 	vrt.Reach("end")
+}
+
+// sameEncoding: a equals b "up to map-entry order". In the engine maps iterate in insertion order, so the bytes are
+// compared exactly (one bit-vector equality). Natively Go randomises iteration order per range statement, so the
+// native replay compares the two encodings by decoding both with the reference decoder (maps as entry sets).
+func sameEncoding(st *RStruct, a, b []byte) bool {
+	if vrt.Symbolic() || vrt.BytesEq(a, b) {
+		return vrt.BytesEq(a, b)
+	}
+	if len(a) != len(b) {
+		return false
+	}
+	var d1, d2 refDec
+	n1, v1, ok1 := refDecodeStruct(st, a, newStructDst(st), &d1, 1<<20)
+	n2, v2, ok2 := refDecodeStruct(st, b, newStructDst(st), &d2, 1<<20)
+	return ok1 && ok2 && n1 == len(a) && n2 == len(b) && refEqualStruct(st, v1, v2) && refEqualStruct(st, v2, v1)
 }
